@@ -1257,6 +1257,119 @@ func (e *c20Env) runMwStack(rng *rand.Rand) *c20MwStackCase {
 	return c
 }
 
+// overlapping invocations of a chain: "G" = a gate middleware at which an invocation parks until the
+// scenario releases it, so that invocations interleave between two applications of the metrics middleware
+type c20MwConcCase struct {
+	Stack   []string        `json:"stack"`
+	Scripts [][]int         `json:"scripts"` // per invocation: outcomes of its successive handler invocations
+	Order   []int           `json:"order"`   // the releases, in order (invocation numbers)
+	HTab    [][]interface{} `json:"htab"`
+	Problem string          `json:"problem,omitempty"`
+}
+
+func (e *c20Env) runMwConc(rng *rand.Rand) *c20MwConcCase {
+	shapes := [][]string{{"M", "G", "M"}, {"M", "M", "G"}, {"G", "M", "M"}, {"M", "G", "M", "G", "M"}, {"R1", "M", "G", "M"},
+		{"M", "G", "R1", "M"}, {"M", "G"}, {"M", "G", "M", "M"}, {"R2", "G", "M", "G", "M"}}
+	c := &c20MwConcCase{Stack: shapes[rng.Intn(len(shapes))], Order: []int{}}
+	n := 2 + rng.Intn(3)
+	for i := 0; i < n; i++ {
+		sc := []int{}
+		for k := 0; k < rng.Intn(4); k++ {
+			sc = append(sc, []int{0, 1, 1, 2}[rng.Intn(4)])
+		}
+		c.Scripts = append(c.Scripts, sc)
+	}
+	type event struct {
+		id     int
+		parked bool
+	}
+	events := make(chan event, 64)
+	release := make([]chan struct{}, n)
+	for i := range release {
+		release[i] = make(chan struct{})
+	}
+	idOf := func(msg *message.Message) int { i, _ := strconv.Atoi(msg.UUID); return i }
+	var mu sync.Mutex
+	pos := make([]int, n)
+	reg := prometheus.NewRegistry()
+	builder := metrics.NewPrometheusMetricsBuilder(reg, "w", "")
+	var h message.HandlerFunc = func(msg *message.Message) ([]*message.Message, error) {
+		id := idOf(msg)
+		mu.Lock()
+		mm := c20MwMsg{PanicV: pos[id] % 3}
+		if pos[id] < len(c.Scripts[id]) {
+			mm.Out = c.Scripts[id][pos[id]]
+		}
+		pos[id]++
+		mu.Unlock()
+		return c20Outcome(mm, msg.UUID, msg)
+	}
+	for i := len(c.Stack) - 1; i >= 0; i-- {
+		switch c.Stack[i] {
+		case "M":
+			h = builder.NewRouterMiddleware().Middleware(h)
+		case "G":
+			next := h
+			h = func(msg *message.Message) ([]*message.Message, error) {
+				id := idOf(msg)
+				events <- event{id, true}
+				<-release[id]
+				return next(msg)
+			}
+		case "R1":
+			h = middleware.Retry{MaxRetries: 1, InitialInterval: 50 * time.Microsecond}.Middleware(h)
+		default:
+			h = middleware.Retry{MaxRetries: 2, InitialInterval: 50 * time.Microsecond}.Middleware(h)
+		}
+	}
+	wait := func(id int) (parked bool, ok bool) {
+		select {
+		case ev := <-events:
+			if ev.id != id {
+				c.Problem = "an invocation moved that was not released"
+				return false, false
+			}
+			return ev.parked, true
+		case <-time.After(20 * time.Second):
+			c.Problem = "an invocation neither finished nor reached the next gate"
+			return false, false
+		}
+	}
+	parked := []int{}
+	for i := 0; i < n; i++ {
+		go func(i int) {
+			defer func() { recover(); events <- event{i, false} }()
+			h(message.NewMessage(strconv.Itoa(i), nil))
+		}(i)
+		p, ok := wait(i)
+		if !ok {
+			return c
+		}
+		if p {
+			parked = append(parked, i)
+		}
+	}
+	for len(parked) > 0 {
+		k := rng.Intn(len(parked))
+		id := parked[k]
+		c.Order = append(c.Order, id)
+		release[id] <- struct{}{}
+		p, ok := wait(id)
+		if !ok {
+			return c
+		}
+		if !p {
+			parked = append(parked[:k], parked[k+1:]...)
+		}
+	}
+	ht, err := c20Gather(reg, "w_handler_execution_time_seconds", []string{"handler_name", "success"})
+	if err != nil {
+		c.Problem = "gather: " + err.Error()
+	}
+	c.HTab = e.table(ht, 1, "true", "false")
+	return c
+}
+
 // a real Router with AddPrometheusRouterMetrics applied [layers] times
 func (e *c20Env) runMwRouter(rng *rand.Rand, layers int) *c20MwCase {
 	c := &c20MwCase{Layers: layers, Router: true, Msgs: c20RandMwMsgs(rng, true)}
@@ -1572,6 +1685,11 @@ func cmdC20(args []string) error {
 		stacks = append(stacks, e.runMwStack(rng))
 	}
 	res["mwstack"] = stacks
+	concs := []*c20MwConcCase{}
+	for i := 0; i < *n/2; i++ {
+		concs = append(concs, e.runMwConc(rng))
+	}
+	res["mwconc"] = concs
 	res["delay"] = c20DelayCases(rng, *n)
 	res["old_delay_picks"] = c20OldPicks
 	res["glue"] = e.glue()
